@@ -35,12 +35,20 @@ func typeOf(s string) string {
 	switch s {
 	case "c", "c2":
 		return "counter"
-	case "g":
+	case "g", "g2":
 		return "gauge"
 	case "s":
 		return "set"
 	}
 	return "timer"
+}
+
+// sid maps a reported (name, tags) back to the spec's series id
+func sid(name string, tags gostatsd.Tags) string {
+	if tags.Exists("sib") {
+		return name + "2"
+	}
+	return name
 }
 
 func dur(e int) time.Duration { return time.Duration(e) * time.Second }
@@ -81,7 +89,8 @@ func TestCases(t *testing.T) {
 						want[r.S] = r
 					}
 					a.Process(func(mm *gostatsd.MetricMap) {
-						see := func(name, ty string) (rep, bool) {
+						see := func(name0, ty string) (rep, bool) {
+							name := name0
 							got = append(got, name)
 							w, ok := want[name]
 							if !ok {
@@ -97,6 +106,7 @@ func TestCases(t *testing.T) {
 							return
 						}
 						mm.Counters.Each(func(n, _ string, v gostatsd.Counter) {
+							n = sid(n, v.Tags)
 							if w, ok := see(n, "counter"); ok {
 								if v.Value != int64(sum(w.Pend)) || v.PerSecond != float64(sum(w.Pend))/interval.Seconds() {
 									problems = append(problems, fmt.Sprintf("value:counter|counter %s = %d (%v/s) want %d", n, v.Value, v.PerSecond, sum(w.Pend)))
@@ -104,6 +114,7 @@ func TestCases(t *testing.T) {
 							}
 						})
 						mm.Gauges.Each(func(n, _ string, v gostatsd.Gauge) {
+							n = sid(n, v.Tags)
 							if w, ok := see(n, "gauge"); ok {
 								okv := false
 								for _, g := range w.Gauge {
@@ -164,6 +175,9 @@ func TestCases(t *testing.T) {
 					flush++
 				default:
 					m := &gostatsd.Metric{Name: h, Rate: 1, Value: float64(id), Timestamp: gostatsd.Nanotime(time.Now().UnixNano()), Source: "10.0.0.1", Tags: gostatsd.Tags{"a:b"}}
+					if len(h) == 2 { // sibling: same name, another tag set
+						m.Name, m.Tags = h[:1], gostatsd.Tags{"sib:2"}
+					}
 					switch typeOf(h) {
 					case "counter":
 						m.Type = gostatsd.COUNTER
